@@ -67,6 +67,18 @@ Gen == /\ ~done
                /\ \A o \in BinOps : \A j \in 1..Len(BinArgs) : \A k \in 1..Len(BinArgs) :
                     /\ Emit(Sel("v", BinArgs[j] \o " " \o o \o " " \o BinArgs[k], "", ""), "binop-where")
                     /\ IF o \in {"+", "-", "*", "/", "%", "&", "|", "^"} THEN Emit(Sel(BinArgs[j] \o " " \o o \o " " \o BinArgs[k], "", "", ""), "binop-field") ELSE TRUE
+          ELSE IF Part = "regex"
+          \* a regex comparison continued by every operator (an operator that binds tighter than =~ takes the
+          \* regex literal as ITS left operand, so the =~ node's right operand is no regex), regex literals
+          \* as plain operands, as fields and as call arguments
+          THEN \A o \in BinOps : \A j \in 1..Len(BinArgs) : \A rop \in {"=~", "!~"} :
+                 /\ Emit(Sel("v", "h " \o rop \o " /a/ " \o o \o " " \o BinArgs[j], "", ""), "regex-then-op")
+                 /\ Emit(Sel("v", BinArgs[j] \o " " \o o \o " h " \o rop \o " /^a$/", "", ""), "op-then-regex")
+                 /\ Emit(Sel("v", "h " \o rop \o " /^a$/ " \o o \o " h " \o rop \o " /^(b|c)$/", "", ""), "regex-op-regex")
+                 /\ Emit(Sel("v", "(h " \o rop \o " /^a$/) " \o o \o " " \o BinArgs[j], "", ""), "paren-regex-then-op")
+                 /\ Emit(Sel("v", "/a/ " \o o \o " " \o BinArgs[j], "", ""), "bare-regex-where")
+                 /\ Emit(Sel("/a/ " \o o \o " " \o BinArgs[j], "", "", ""), "bare-regex-field")
+                 /\ Emit(Sel("mean(/a/) " \o o \o " " \o BinArgs[j], "", "time(1m)", ""), "regex-call-op")
           ELSE IF Part = "dims"
           THEN \A d \in Dims : \A f \in {"v", "mean(v)", "top(v, 1), h", "*"} : \A tl \in Tails : Emit(Sel(f, "", d, tl), "dim")
           ELSE IF Part = "conds"
